@@ -351,6 +351,28 @@ def t_truncated(ctx):
     ctx.exhaustive.append('every cut of every push encoding for 7 lengths, after 3 prefixes')
 
 
+def t_templates(ctx):
+    """the length-keyed templates the predicates look for, over EVERY length: a version opcode (or a near miss) followed by
+    a direct push of n = 0..0x4e bytes with the script one byte short / exact / one byte long; the P2SH and nested forms
+    with every declared length; all judged by all predicates and both sigop counts (deterministic, all tiers)"""
+    heads = [0x00, 0x4f, 0x50] + list(range(0x51, 0x62)) + [0x4c, 0x14, 0xff]
+    for h in ctx.my(heads):
+        for n in range(0, 0x4f):
+            for delta in (-1, 0, 1):
+                body = bytes((h + n + i) % 256 for i in range(max(n + delta, 0)))
+                ctx.run({'kind': 'raw', 'script': (bytes([h, n]) + body).hex()})
+    if ctx.shard == 0:
+        for n in range(0, 0x4f):
+            for tail in (b'\x87', b'\x88', b''):
+                ctx.run({'kind': 'raw', 'script': (b'\xa9' + bytes([n]) + bytes(n) + tail).hex()})        # HASH160 <n> EQUAL
+            for inner in (0x14, 0x20, n):
+                red = bytes([0, inner]) + bytes(range(inner))
+                ctx.run({'kind': 'raw', 'script': (bytes([len(red)]) + red).hex()})                    # nested forms
+                ctx.run({'kind': 'raw', 'script': (bytes([n]) + red).hex()})
+        ctx.exhaustive.append('witness-program shape: 20 head opcodes x push length 0..78 x {short, exact, long}; '
+                              'HASH160 <n bytes> EQUAL for n 0..78; nested witness forms with every outer/inner length')
+
+
 def fuzz_decode(data):
     return {'kind': 'raw', 'script': data[:1200].hex()}
 
@@ -363,5 +385,5 @@ def t_fuzz(ctx):
 
 
 TASKS = [('exhaustive_raw', (t_exhaustive_raw, 8)), ('exhaustive_tokens', (t_exhaustive_tokens, 4)), ('build', (t_build, 1)),
-         ('raw', (t_raw, 2)), ('num', (t_num, 1)), ('truncated', (t_truncated, 1)),
+         ('raw', (t_raw, 2)), ('num', (t_num, 1)), ('truncated', (t_truncated, 1)), ('templates', (t_templates, 4)),
          ('fuzz', (t_fuzz, lambda tier: 1 if tier == 'quick' else 6))]
